@@ -167,7 +167,7 @@ func (e *Engine) assert(c Sc, label string) {
 	neg := e.tt.Not(c.t)
 	cone := e.cone(neg)
 	as := append(append([]*Term{}, cone...), neg)
-	r, m := e.solver.Check(as, true)
+	r, m := e.checkCached(as)
 	e.res.mu.Lock()
 	e.res.AssertsSym++
 	if e.opts.CrossFrac > 0 && (e.res.AssertsSym%e.opts.CrossFrac == 0) && len(e.res.crossQ) < 4000 {
@@ -230,6 +230,12 @@ func (e *Engine) vrtCall(name string, f *ssa.Function, args []Val) (Val, bool) {
 			return isc(int64(v)), true
 		}
 		return args[1], true
+	case "Or":
+		return e.orSc(args[0].(Sc), args[1].(Sc)), true
+	case "And":
+		return e.andSc(args[0].(Sc), args[1].(Sc)), true
+	case "Not":
+		return e.notSc(args[0].(Sc)), true
 	case "Concrete":
 		return isc(int64(e.concretize(args[0].(Sc), "Concrete"))), true
 	case "Bytes":
@@ -261,7 +267,7 @@ func (e *Engine) vrtCall(name string, f *ssa.Function, args []Val) (Val, bool) {
 	case "TryMsg":
 		return Str(e.lastPanicMsg), true
 	case "Note":
-		e.notes = append(e.notes, strArg(args[0])+"="+e.renderVal(args[1]))
+		e.notes = append(e.notes, noteRec{label: strArg(args[0]), v: args[1]})
 		return nil, true
 	case "IsSymbolic":
 		return bsc(true), true
@@ -377,7 +383,7 @@ func init() {
 			panic(pathEnd{"exit", "log.Fatal"})
 		},
 		"os.Exit": func(e *Engine, f *ssa.Function, a []Val) Val {
-			e.out = append(e.out, outEvent{kind: "exit", args: []Val{a[0]}})
+			e.out = append(e.out, outEvent{kind: "exit", text: Str("exit")})
 			panic(pathEnd{"exit", "os.Exit"})
 		},
 		"fmt.Errorf": func(e *Engine, f *ssa.Function, a []Val) Val {
@@ -393,15 +399,15 @@ func init() {
 			return concat(e.sprintVal(a[0], true), Str("\n"))
 		},
 		"fmt.Print": func(e *Engine, f *ssa.Function, a []Val) Val {
-			e.out = append(e.out, outEvent{kind: "print", args: e.snapshotArgs(a[0])})
+			e.out = append(e.out, outEvent{kind: "print", text: e.sprintVal(a[0], false)})
 			return Tu{isc(0), If{}}
 		},
 		"fmt.Println": func(e *Engine, f *ssa.Function, a []Val) Val {
-			e.out = append(e.out, outEvent{kind: "println", args: e.snapshotArgs(a[0])})
+			e.out = append(e.out, outEvent{kind: "println", text: concat(e.sprintVal(a[0], true), Str("\n"))})
 			return Tu{isc(0), If{}}
 		},
 		"fmt.Printf": func(e *Engine, f *ssa.Function, a []Val) Val {
-			e.out = append(e.out, outEvent{kind: "printf:" + strArg(a[0]), args: e.snapshotArgs(a[1])})
+			e.out = append(e.out, outEvent{kind: "printf", format: strArg(a[0]), text: e.sprintfVal(a[0], a[1])})
 			return Tu{isc(0), If{}}
 		},
 		"(*github.com/paulsonkoly/calc/combinator.Error).Error": nil,
@@ -469,6 +475,9 @@ func init() {
 				return bsc(x != x)
 			}
 			return e.symSc(e.tt.App("fp.isNaN", 0, e.tt.ToFP(s.t)))
+		},
+		"reflect.DeepEqual": func(e *Engine, f *ssa.Function, a []Val) Val {
+			return e.deepEqual(a[0], a[1])
 		},
 		"errors.Is": func(e *Engine, f *ssa.Function, a []Val) Val {
 			return e.eqVal(types.Universe.Lookup("error").Type(), a[0], a[1])
@@ -899,4 +908,75 @@ func (e *Engine) vrtOutput() Val {
 	// not exposed as Go data; harnesses use dedicated comparison intrinsics instead
 	e.unsupported("vrt.Output is not available")
 	return nil
+}
+
+// deepEqual implements reflect.DeepEqual on the interpreter's value representation.
+func (e *Engine) deepEqual(x, y Val) Sc {
+	switch a := x.(type) {
+	case If:
+		b, ok := y.(If)
+		if !ok {
+			return bsc(false)
+		}
+		if a.t == nil || b.t == nil {
+			return bsc(a.t == nil && b.t == nil)
+		}
+		if !types.Identical(a.t, b.t) {
+			return bsc(false)
+		}
+		return e.deepEqualT(a.t, a.v, b.v)
+	}
+	e.unsupported("reflect.DeepEqual on %T", x)
+	return Sc{}
+}
+
+func (e *Engine) deepEqualT(t types.Type, x, y Val) Sc {
+	switch u := t.Underlying().(type) {
+	case *types.Struct:
+		a, b := x.(St), y.(St)
+		r := bsc(true)
+		for i := range a {
+			r = e.andSc(r, e.deepEqualT(u.Field(i).Type(), a[i], b[i]))
+			if r.t == nil && r.c == 0 {
+				return r
+			}
+		}
+		return r
+	case *types.Array:
+		a, b := x.(St), y.(St)
+		r := bsc(true)
+		for i := range a {
+			r = e.andSc(r, e.deepEqualT(u.Elem(), a[i], b[i]))
+		}
+		return r
+	case *types.Slice:
+		a, _ := x.(Sl)
+		b, _ := y.(Sl)
+		if (a.a == nil) != (b.a == nil) || len(a.a) != len(b.a) {
+			return bsc(false)
+		}
+		r := bsc(true)
+		for i := range a.a {
+			r = e.andSc(r, e.deepEqualT(u.Elem(), a.a[i], b.a[i]))
+			if r.t == nil && r.c == 0 {
+				return r
+			}
+		}
+		return r
+	case *types.Interface:
+		return e.deepEqual(x, y)
+	case *types.Pointer:
+		xp, _ := x.(*Val)
+		yp, _ := y.(*Val)
+		if xp == yp {
+			return bsc(true)
+		}
+		if xp == nil || yp == nil {
+			return bsc(false)
+		}
+		return e.deepEqualT(u.Elem(), *xp, *yp)
+	case *types.Map, *types.Signature, *types.Chan:
+		e.unsupported("reflect.DeepEqual on %s", t)
+	}
+	return e.eqVal(t, x, y)
 }
